@@ -1,5 +1,5 @@
 use crate::interface::config::GenerateConfig;
-use crate::models::{CommandInfo, StructInfo};
+use crate::models::{CommandInfo, StructInfo, ValidatorAttributes};
 use serde::{Deserialize, Serialize};
 use std::collections::{BTreeMap, HashMap};
 use std::fs;
@@ -123,6 +123,7 @@ impl GenerationCache {
             return_type: &'a str,
             is_async: bool,
             channels: Vec<ChannelHashData<'a>>,
+            serde_rename_all: Option<String>,
         }
 
         #[derive(Serialize)]
@@ -130,12 +131,14 @@ impl GenerationCache {
             name: &'a str,
             rust_type: &'a str,
             is_optional: bool,
+            serde_rename: Option<&'a str>,
         }
 
         #[derive(Serialize)]
         struct ChannelHashData<'a> {
             parameter_name: &'a str,
             message_type: &'a str,
+            serde_rename: Option<&'a str>,
         }
 
         let hash_data: Vec<CommandHashData> = commands
@@ -150,6 +153,7 @@ impl GenerationCache {
                         name: &p.name,
                         rust_type: &p.rust_type,
                         is_optional: p.is_optional,
+                        serde_rename: p.serde_rename.as_deref(),
                     })
                     .collect(),
                 return_type: &cmd.return_type,
@@ -160,8 +164,10 @@ impl GenerationCache {
                     .map(|c| ChannelHashData {
                         parameter_name: &c.parameter_name,
                         message_type: &c.message_type,
+                        serde_rename: c.serde_rename.as_deref(),
                     })
                     .collect(),
+                serde_rename_all: cmd.serde_rename_all.map(|rule| format!("{:?}", rule)),
             })
             .collect();
 
@@ -177,6 +183,7 @@ impl GenerationCache {
             file_path: &'a str,
             is_enum: bool,
             fields: Vec<FieldHashData<'a>>,
+            serde_rename_all: Option<String>,
         }
 
         #[derive(Serialize)]
@@ -185,6 +192,8 @@ impl GenerationCache {
             rust_type: &'a str,
             is_optional: bool,
             is_public: bool,
+            serde_rename: Option<&'a str>,
+            validator_attributes: Option<&'a ValidatorAttributes>,
         }
 
         // Sort by name for deterministic ordering
@@ -205,8 +214,11 @@ impl GenerationCache {
                         rust_type: &f.rust_type,
                         is_optional: f.is_optional,
                         is_public: f.is_public,
+                        serde_rename: f.serde_rename.as_deref(),
+                        validator_attributes: f.validator_attributes.as_ref(),
                     })
                     .collect(),
+                serde_rename_all: s.serde_rename_all.map(|rule| format!("{:?}", rule)),
             })
             .collect();
 
